@@ -54,7 +54,11 @@ func main() {
 		scenarios = append(scenarios,
 			scenario{"three-spans-two-ticks", 1, []spanSpec{{"t1", "a", false}, {"t2", "b", true}, {"t1", "c", true}}, []time.Duration{100 * time.Millisecond, 100 * time.Millisecond}})
 	}
-	r.Sharded(len(scenarios)+len(watcherScenarios), func(si, sn int) {
+	r.Sharded(len(scenarios)+len(watcherScenarios)+1, func(si, sn int) {
+		if si == len(scenarios)+len(watcherScenarios) {
+			factoryShard(r)
+			return
+		}
 		if si >= len(scenarios) {
 			watcherShard(r, bound+1, watcherScenarios[si-len(scenarios)])
 			return
